@@ -5,6 +5,7 @@ package main
 import (
 	"errors"
 	"fmt"
+	"sort"
 	"strings"
 	"time"
 
@@ -319,27 +320,35 @@ func runC09(c *Ctx) {
 		}
 	}
 	rec(nil)
+	// shortest scripts first: whatever the time budget cuts is the longest ones
+	sort.SliceStable(scripts, func(i, j int) bool { return len(scripts[i]) < len(scripts[j]) })
 	c.Bound("scripts", fmt.Sprintf("all %d scripts of <=%d consecutive attempt outcomes over %v (then healthy) x (base,max) %v; keep-alive interval %v, timeout %v; schedules: default plus every single deviation (preemption or non-default task choice at a blocking point; thorough: two)", len(scripts), maxLen, c09Outcomes, waits, c09Interval, c09Timeout))
 	c.Bound("stop", fmt.Sprintf("for scripts of length<=2: Disconnect / cancellation of Connect's context at every instant of a grid (the moment the broker accepts the first connection; every 500 ms up to 20 s, and +-1 ns around every whole second) with P<=%d (scripts of length 2: P<=%d)", p, p-1))
 	var net *env.Net
 	var last []string
-	for _, w := range waits {
+	backoff := func(long bool) {
 		for _, sc := range scripts {
-			w, sc := w, sc
-			s := &vrt.Scenario{
-				Name:       fmt.Sprintf("C09/backoff/%v-%v/%s", w[0], w[1], strings.Join(sc, ",")),
-				Bound:      vrt.Budget{P: p, D: p, Total: p},
-				DelayBound: true,
-				Cfg:        vrt.Config{Horizon: int64(200 * time.Second)},
-				Body:       c09Body(sc, w[0], w[1], c09Stop{kind: "none"}, &net),
-				Observe:    func() uint64 { return net.TraceHash() },
+			if (len(sc) > 3) != long {
+				continue
 			}
-			c.Explore(s)
-			if net != nil && len(sc) == maxLen {
-				last = net.TraceStrings()
+			for _, w := range waits {
+				w, sc := w, sc
+				s := &vrt.Scenario{
+					Name:       fmt.Sprintf("C09/backoff/%v-%v/%s", w[0], w[1], strings.Join(sc, ",")),
+					Bound:      vrt.Budget{P: p, D: p, Total: p},
+					DelayBound: true,
+					Cfg:        vrt.Config{Horizon: int64(200 * time.Second)},
+					Body:       c09Body(sc, w[0], w[1], c09Stop{kind: "none"}, &net),
+					Observe:    func() uint64 { return net.TraceHash() },
+				}
+				c.Explore(s)
+				if net != nil && len(sc) == maxLen {
+					last = net.TraceStrings()
+				}
 			}
 		}
 	}
+	backoff(false) // scripts of length <= 3; the longer ones (thorough tier) come last
 	// stop conditions: the instant is a free choice inside the scenario
 	instants := []time.Duration{-1, -2} // -1: the moment the broker accepts the first connection; -2: the moment the client reports it Active
 	for t := time.Duration(0); t <= 20*time.Second; t += 500 * time.Millisecond {
@@ -372,6 +381,7 @@ func runC09(c *Ctx) {
 			c.Explore(s)
 		}
 	}
+	backoff(true)
 	if last != nil {
 		c.Sample(map[string]any{"wire": last})
 	}
